@@ -141,10 +141,17 @@ def gen_block(rng, i):
     words = ['alpha', 'beta', 'gamma', 'the', 'value', 'of', 'it.', 'See', 'foo_other()', 'too', '<b>x</b>', '&amp;', 'a:b', 'x(y)']
     def sentence():
         return ' '.join(rng.choice(words) for _ in range(rng.randint(1, 7)))
+    def pdesc(n):
+        # the description of a parameter or tag may begin with a colon ("::signal-name is emitted ..."); elsewhere a
+        # colon after the first word of a line would be the deprecated tag-style syntax
+        d = [sentence() for _ in range(n)]
+        if d and rng.random() < 0.15:
+            d[0] = rng.choice(['::sig-name', ':prop', ':', ': :']) + ' ' + d[0]
+        return d
     b = dict(name=name, anns=anns(rng.choice([0, 0, 1, 2])), params=[], desc=[], tags=[])
     for j in range(rng.randint(0, 4) if kind < 0.6 else 0):
         b['params'].append(dict(name='p%d' % j if rng.random() < 0.9 else '...', anns=anns(rng.choice([0, 1, 2, 3])),
-                                desc=[sentence() for _ in range(rng.choice([0, 1, 1, 2, 3]))]))
+                                desc=pdesc(rng.choice([0, 1, 1, 2, 3]))))
     names = set()
     b['params'] = [p for p in b['params'] if not (p['name'] in names or names.add(p['name']))]
     for _ in range(rng.choice([0, 1, 1, 2])):
@@ -153,7 +160,7 @@ def gen_block(rng, i):
     if b['desc']:
         b['desc'][-1] = b['desc'][-1][:-1]
     if rng.random() < 0.6 and kind < 0.6:
-        b['tags'].append(dict(name='Returns', anns=anns(rng.choice([0, 1, 2])), desc=[sentence() for _ in range(rng.choice([0, 1, 2]))]))
+        b['tags'].append(dict(name='Returns', anns=anns(rng.choice([0, 1, 2])), desc=pdesc(rng.choice([0, 1, 2]))))
     if rng.random() < 0.4:
         b['tags'].append(dict(name='Since', value=rng.choice(['1.2', '0.10', '3']), desc=[sentence()] if rng.random() < 0.3 else []))
     if rng.random() < 0.3:
